@@ -1,7 +1,7 @@
 """C06 driver: normals reported by boundary objects at the points of their own boundary samplers."""
 import torch
 import torchphysics as tp
-from torchphysics.problem.spaces import Points
+from torchphysics.problem.spaces import Points, Space
 from .common import main, watched
 from .. import universe as U
 from .c05 import rows_for
@@ -16,7 +16,7 @@ def run_one(s):
         return {"bd_exc": r[1] if len(r) > 1 else "hang", "sets": []}
     bd = r[1]
     vs = U.space_vars(e)
-    sets = []
+    sets, raw = [], {}
     for j, (kind, n) in enumerate((("random", 16), ("grid", 12), ("grid", 7))):
         row = rows_for(names, 1, tid + j)[0] if names else {}
         p1 = U.mk_params(names, [row] if names else [])
@@ -42,6 +42,24 @@ def run_one(s):
         for i in range(m):
             rec["pts"].append(U.q_of({v: [float(x) for x in co[v][i]] for v in vs}, row))
             rec["normals"].append([U.quant(x, 256) for x in nn.reshape(m, -1)[i]] if nn.numel() == m * d else [])
+        sets.append(rec)
+        raw[len(sets) - 1] = (pts, row)
+    # normal() asked for ONE point at a time (what the batch contains must not matter): the points of the first grid set
+    g0 = [j for j, st in enumerate(sets) if st["kind"] == "grid" and j in raw and st["pts"]]
+    if g0:
+        j0 = g0[0]
+        pts0, row0 = raw[j0]
+        rec = {"kind": "one-by-one", "n": 0, "prm": sets[j0]["prm"], "exc": "", "nexc": "", "pts": [], "normals": [], "shape_ok": True}
+        d_ = sum(U.SPACES[v] for v in vs)
+        for i in range(min(8, len(pts0))):
+            one = pts0[i:i + 1, ]
+            r1 = watched(lambda: bd.normal(one, U.mk_params(names, [row0]) if names else Points.empty()), 5)
+            if r1[0] != "ok":
+                rec["nexc"] = r1[1] if len(r1) > 1 else "hang"
+                break
+            n1 = torch.as_tensor(r1[1]).detach().to(torch.float64).reshape(-1)
+            rec["pts"].append(sets[j0]["pts"][i])
+            rec["normals"].append([U.quant(x, 256) for x in n1] if n1.numel() == d_ else [])
         sets.append(rec)
     # one normal() call on a batch whose points belong to DIFFERENT parameter rows (every point with its own row)
     if names:
